@@ -145,10 +145,8 @@ impl Compiler {
             // Empty block has completion value undefined
             self.builder.emit(Op::LoadUndefined { dst: 0 });
         } else {
-            // Compile statements
-            for stmt in block.body.iter() {
-                self.compile_statement_impl(stmt)?;
-            }
+            // Compile statements (function declarations first: they are hoisted)
+            self.compile_statements(&block.body)?;
         }
 
         // Pop scope
@@ -925,9 +923,7 @@ impl Compiler {
                 // Empty catch block has completion value undefined
                 self.builder.emit(Op::LoadUndefined { dst: 0 });
             } else {
-                for stmt in handler.body.body.iter() {
-                    self.compile_statement_impl(stmt)?;
-                }
+                self.compile_statements(&handler.body.body)?;
             }
 
             // Pop scope
@@ -943,9 +939,7 @@ impl Compiler {
             self.builder.set_span(finalizer.span);
 
             // Compile finally block
-            for stmt in finalizer.body.iter() {
-                self.compile_statement_impl(stmt)?;
-            }
+            self.compile_statements(&finalizer.body)?;
 
             // FinallyEnd completes any pending return/throw
             self.builder.emit(Op::FinallyEnd);
@@ -1184,10 +1178,8 @@ impl Compiler {
         // Hoist var declarations in the function body
         func_compiler.emit_hoisted_declarations(body)?;
 
-        // Compile the body statements
-        for stmt in body {
-            func_compiler.compile_statement_impl(stmt)?;
-        }
+        // Compile the body statements (function declarations first: they are hoisted)
+        func_compiler.compile_statements(body)?;
 
         // Emit implicit return undefined at end
         let undefined_reg = func_compiler.builder.alloc_register()?;
@@ -2151,9 +2143,7 @@ impl Compiler {
         func_compiler.emit_hoisted_declarations(&ctor.body.body)?;
 
         // Compile constructor body
-        for stmt in ctor.body.body.iter() {
-            func_compiler.compile_statement_impl(stmt)?;
-        }
+        func_compiler.compile_statements(&ctor.body.body)?;
 
         // Return this implicitly (constructor returns `this`)
         let this_reg = func_compiler.builder.alloc_register()?;
